@@ -478,10 +478,61 @@ class FrozenClock:
                                             time=pydt.time, date=pydt.date)
 
 
-def impl_sink(obj, ctime0_ts, pre_bytes, msgs, encoding="utf8", limit_s=5):
+XATTR = b"user.loguru_crtime"
+
+
+def xattr_supported():
+    """can this machine's scratch directory hold user.* extended attributes?"""
+    if "v" not in xattr_supported.__dict__:
+        d = tempfile.mkdtemp(prefix="verif-xattr-")
+        try:
+            p = os.path.join(d, "probe")
+            open(p, "w").close()
+            try:
+                os.setxattr(p, b"user.verif_probe", b"1")
+                xattr_supported.v = os.getxattr(p, b"user.verif_probe") == b"1"
+            except (OSError, AttributeError):
+                xattr_supported.v = False
+        finally:
+            shutil.rmtree(d, ignore_errors=True)
+    return xattr_supported.v
+
+
+def age_file(path, aging):
+    """give an existing file a history: aging = {"mtime_us", "atime_us", "xattr_us" | None, "touch"}.
+    The modification time is planted with os.utime (as cp -p / rsync -t / tar x do), the persisted creation
+    time – if any – through the attribute loguru itself writes, and afterwards the inode is touched once more
+    (chmod or mv), which moves st_ctime but neither of the two."""
+    tmp = path + ".incoming"
+    os.rename(path, tmp)
+    if aging.get("xattr_us") is not None:
+        os.setxattr(tmp, XATTR, str(aging["xattr_us"] / 1e6).encode("ascii"))
+    os.utime(tmp, ns=(aging["atime_us"] * 1000, aging["mtime_us"] * 1000))
+    if aging.get("touch") == "chmod":
+        os.chmod(tmp, 0o640)
+    os.rename(tmp, path)      # mv keeps mtime and attributes
+
+
+def expected_creation(path, aging):
+    """the creation instant the property names for this file (µs): the persisted one, else its mtime"""
+    if aging.get("xattr_us") is not None:
+        return ctime_pair(aging["xattr_us"])[1]
+    return us_of(pydt.datetime.fromtimestamp(os.stat(path).st_mtime, tz=pydt.timezone.utc))
+
+
+class _no_patch:
+    def __enter__(self):
+        return self
+
+    def __exit__(self, *a):
+        return False
+
+
+def impl_sink(obj, ctime0_ts, pre_bytes, msgs, encoding="utf8", limit_s=5, aging=None):
     """real FileSink in a scratch directory.  msgs: [(utc_us, off_us, text)].  The clock is frozen at each
-    message's instant; creation times live in a dict (get_ctime/set_ctime patched).
-    -> ("ok", [files as lists of message indices, oldest first], [sizes]) | ("err", kind) | ("hang", i)"""
+    message's instant.  Without `aging` creation times live in a dict (get_ctime/set_ctime patched); with
+    `aging` the pre-existing file is aged on the real file system and loguru's own get_ctime/set_ctime run.
+    -> ("ok", [(name, content)]) | ("err", kind) | ("hang", i) | ("raised", kind, i)"""
     import loguru._file_sink as fs
     d = tempfile.mkdtemp(prefix="verif-rot-")
     ctimes = {}
@@ -492,7 +543,10 @@ def impl_sink(obj, ctime0_ts, pre_bytes, msgs, encoding="utf8", limit_s=5):
         if pre_bytes is not None:
             with open(path, "wb") as fh:
                 fh.write(pre_bytes)
-        with patched_ctime(lambda p: ctimes.get(p, ctime0_ts), ctimes.__setitem__):
+        if aging is not None:
+            age_file(path, aging)
+            aging["expected_us"] = expected_creation(path, aging)
+        with (_no_patch() if aging is not None else patched_ctime(lambda p: ctimes.get(p, ctime0_ts), ctimes.__setitem__)):
             fs.datetime = clock.module
             try:
                 try:
@@ -820,6 +874,9 @@ def run(ctx):
                 ctx.broke("correspondence Py.Calendar", "expected %s got %s" % (e, o))
     ctx.stat("calendar_days_checked(CalendarMonthFact)", len(cal_exp))
 
+    # ---- stream 7: get_ctime / set_ctime on real files with a history (no patching)
+    run_ctime_stream(ctx, drv, rng)
+
     # ---- stream 6: sink level – a real FileSink, frozen clock, observable = messages per file
     run_sink_stream(ctx, drv, rng, boost)
     dedup_broken(ctx)
@@ -832,6 +889,69 @@ def dedup_broken(ctx):
             seen.add(b["name"])
             uniq.append(b)
     ctx.broken[:] = uniq
+
+
+def run_ctime_stream(ctx, drv, rng):
+    """loguru._ctime_functions.get_ctime / set_ctime on scratch files aged with os.utime, with and without the
+    persisted attribute, chmod'ed / moved afterwards: the value must be the persisted creation time, else the
+    modification time (oracle), and must agree with the model `Rotation.getCtime`."""
+    import loguru._ctime_functions as cf
+    import loguru._file_sink as fs
+    if os.name == "nt" or hasattr(os.stat_result, "st_birthtime"):
+        ctx.note("creation-time stream skipped: not a Linux-like platform")
+        return
+    plat = "l" if hasattr(os, "getxattr") and hasattr(os, "setxattr") else "f"
+    d = tempfile.mkdtemp(prefix="verif-ctime-")
+    lines, exp = [], []
+    try:
+        for i in range(ctx.n(300, 6000)):
+            path = os.path.join(d, "f%d.log" % i)
+            with open(path, "wb") as fh:
+                fh.write(b"x")
+            m_us = gen_creation(rng)
+            planted = rng.chance(40) and xattr_supported()
+            aging = {"mtime_us": m_us, "atime_us": m_us + rng.range(-10**9, 10**9),
+                     "xattr_us": (m_us + rng.choice([1, -1]) * rng.range(1, 10**12)) if planted else None,
+                     "touch": rng.choice([None, "chmod"])}
+            age_file(path, aging)
+            want = expected_creation(path, aging)
+            st = os.stat(path)
+            rep = {"stream": "ctime", "aging": aging, "expected": want}
+            ctx.case(("ctime", i, m_us, planted), nontrivial=True)
+            ctx.stat("ctime:" + ("xattr" if planted else "mtime") + ("+chmod" if aging["touch"] else ""))
+            for name, fn in (("_ctime_functions.get_ctime", cf.get_ctime), ("_file_sink.get_ctime", fs.get_ctime)):
+                got = us_of(pydt.datetime.fromtimestamp(fn(path), tz=pydt.timezone.utc))
+                if got != want:
+                    ctx.violation("%s of an existing file (mtime %s, inode change %s, %s) is %s, its creation time is %s"
+                                  % (name, naive_of(st.st_mtime_ns // 1000), naive_of(st.st_ctime_ns // 1000),
+                                     "user.loguru_crtime = %s" % naive_of(aging["xattr_us"]) if planted else "no user.loguru_crtime",
+                                     naive_of(got), naive_of(want)), dict(rep, observed=got))
+                    break
+            # set_ctime then get_ctime
+            ts2 = (m_us + 1) / 1e6
+            cf.set_ctime(path, ts2)
+            back = us_of(pydt.datetime.fromtimestamp(cf.get_ctime(path), tz=pydt.timezone.utc))
+            want2 = ctime_pair(m_us + 1)[1] if xattr_supported() else want
+            if back != want2:
+                ctx.violation("get_ctime after set_ctime(%r) is %s, expected %s" % (ts2, back, want2),
+                              dict(rep, observed=back, expected=want2, after_set=True))
+            lines.append("ctime %s %s %d %d %d" % (plat if xattr_supported() else "f",
+                                                   "n" if not planted else ctime_pair(aging["xattr_us"])[1],
+                                                   us_of(pydt.datetime.fromtimestamp(st.st_mtime, tz=pydt.timezone.utc)),
+                                                   st.st_ctime_ns // 1000, st.st_atime_ns // 1000))
+            exp.append((got, back, rep))
+            os.remove(path)
+    finally:
+        shutil.rmtree(d, ignore_errors=True)
+    out = drv.run(lines) if lines else []
+    for (got, back, rep), o in zip(exp, out):
+        ctx.traces_validated += 1
+        if o != "ok %d %d" % (got, back):
+            ctx.stat("disagreements")
+            ctx.broke("correspondence Rotation.getCtime", "aging=%r impl=(%d, %d) model=%r" % (rep["aging"], got, back, o))
+            ctx.violation("implementation and model disagree on the creation time of an existing file %r: impl %d / after "
+                          "set %d, model %s (the model is characterised by creation_time_source / set_then_get)"
+                          % (rep["aging"], got, back, o), dict(rep, observed=got), kind="correspondence")
 
 
 def files_from_bits(bits):
@@ -861,18 +981,31 @@ def run_sink_stream(ctx, drv, rng, boost):
         off = rng.choice(OFFSETS)
         c_us = gen_creation(rng) - off
         ts, eff = ctime_pair(c_us)
-        restart = rng.chance(40)
+        restart = rng.chance(55)
+        aging = None
+        if restart and rng.chance(55):
+            # the creation time comes from the file system itself: aged file, loguru's own get_ctime/set_ctime
+            planted = rng.chance(45) and xattr_supported()
+            skew = rng.choice([1, 60, 3600, 86400, 40 * 86400]) * 10**6 * rng.choice([1, -1])
+            aging = {"mtime_us": eff + skew if planted else eff, "atime_us": eff + rng.range(0, 10**9),
+                     "xattr_us": eff if planted else None, "touch": rng.choice([None, "chmod"])}
         stamps = gen_stamps(rng, sem, eff, off, rng.range(2, 8))
         texts = ["<%d>%s\n" % (k, "x" * rng.below(5)) for k in range(len(stamps))]
         pre = b"old line\n" if restart else None
-        got = impl_sink(obj, ts, pre, [(u, off, t) for u, t in zip(stamps, texts)])
+        got = impl_sink(obj, ts, pre, [(u, off, t) for u, t in zip(stamps, texts)], aging=aging)
+        if aging is not None:
+            ctx.stat("sink_real_ctime:" + ("xattr" if aging["xattr_us"] is not None else "mtime") +
+                     ("+chmod" if aging["touch"] else ""))
+            if aging.get("expected_us") != eff:
+                raise RuntimeError("aging a scratch file did not plant the instant asked for: %r vs %d" % (aging, eff))
         bits = oracle_bits(sem, eff, off, stamps)
         exp_files = files_from_bits(bits)
         ctx.case(("sink", token, eff, off, tuple(stamps)), nontrivial=(any(bits) and not all(bits)))
         ctx.stat("sink_level")
         ctx.stat("sink_restart_on_existing_file" if restart else "sink_fresh_file")
         rep = {"stream": "sink", "token": token, "spelling": obj if isinstance(obj, str) else repr(obj),
-               "ctime": eff, "offset": off, "stamps": stamps, "restart": restart, "expected": show_files(exp_files)}
+               "ctime": eff, "offset": off, "stamps": stamps, "restart": restart, "expected": show_files(exp_files),
+               "aging": ({k: v for k, v in aging.items() if k != "expected_us"} if aging else None)}
         if got[0] != "ok":
             ctx.violation("file sink with rotation %r: %s" % (rep["spelling"], got), dict(rep, observed=list(got)))
             continue
@@ -887,8 +1020,12 @@ def run_sink_stream(ctx, drv, rng, boost):
         obs = show_files(norm if norm else [[]])
         exp = show_files(exp_files)
         if obs != exp:
-            ctx.violation("file sink with rotation %r (creation %d, offset %d): messages per file %s, the boundaries "
-                          "denote %s" % (rep["spelling"], eff, off, obs, exp), dict(rep, observed=obs))
+            ctx.violation("file sink with rotation %r (creation %d%s, offset %d): messages per file %s, the boundaries "
+                          "denote %s" % (rep["spelling"], eff,
+                                         "" if aging is None else " = %s of an existing file%s" % (
+                                             "user.loguru_crtime" if aging["xattr_us"] is not None else "mtime",
+                                             ", chmod'ed since" if aging["touch"] else ""),
+                                         off, obs, exp), dict(rep, observed=obs))
         msgs = " ".join("%d,%d,%d,%d" % (u, off, len(t.encode()), len(t)) for u, t in zip(stamps, texts))
         lines.append("sink %s %d %d %s" % (token, eff, len(pre or b""), msgs))
         expect.append((rep, obs))
@@ -930,7 +1067,8 @@ def replay(ctx, rep):
         obj = object_of_token(r["token"])
         texts = ["<%d>\n" % k for k in range(len(r["stamps"]))]
         pre = b"old line\n" if r.get("restart") else None
-        got = impl_sink(obj, ctime_pair(r["ctime"])[0], pre, [(u, r["offset"], t) for u, t in zip(r["stamps"], texts)])
+        got = impl_sink(obj, ctime_pair(r["ctime"])[0], pre, [(u, r["offset"], t) for u, t in zip(r["stamps"], texts)],
+                        aging=dict(r["aging"]) if r.get("aging") else None)
         obs = None
         if got[0] == "ok":
             part = partition_of(got[1], texts, "utf8", pre)
@@ -941,6 +1079,25 @@ def replay(ctx, rep):
         print("implementation:", obs if obs is not None else got)
         print("expected:      ", r.get("expected"))
         bad = obs != r.get("expected")
+    elif stream == "ctime":
+        import loguru._ctime_functions as cf
+        d = tempfile.mkdtemp(prefix="verif-ctime-")
+        try:
+            path = os.path.join(d, "f.log")
+            with open(path, "wb") as fh:
+                fh.write(b"x")
+            age_file(path, r["aging"])
+            want = expected_creation(path, r["aging"])
+            if r.get("after_set"):
+                cf.set_ctime(path, (r["aging"]["mtime_us"] + 1) / 1e6)
+                want = r["expected"]
+            got = us_of(pydt.datetime.fromtimestamp(cf.get_ctime(path), tz=pydt.timezone.utc))
+            st = os.stat(path)
+            print("file aged as %r: mtime=%s inode-change=%s" % (r["aging"], st.st_mtime, st.st_ctime))
+            print("get_ctime -> %s, creation time of the file: %s" % (naive_of(got), naive_of(want)))
+            bad = got != want
+        finally:
+            shutil.rmtree(d, ignore_errors=True)
     elif stream == "dur":
         from loguru import _string_parsers as sp
         try:
